@@ -97,22 +97,22 @@ var c19Corpus = func() [][]byte {
 		[]byte(`{"perm_channels":[` + ch("transfer", "channel-0") + `]}`),
 		[]byte(`{"perm_channels":[` + ch("transfer", "channel-0") + `,` + ch("transfer", "channel-1") + `]}`),
 		[]byte(`{"perm_channels":[` + ch("transfer", "channel-1") + `,` + ch("nft-transfer", "channel-2") + `,` + ch("transfer", "channel-3") + `]}`),
-		[]byte(`{"perm_channels":[` + ch("transfer", "channel-0") + `,` + ch("transfer", "channel-0") + `]}`), // duplicate in list
-		[]byte(`{"perm_channels":[` + ch("transfer", "channel-2") + `],"extra":1}`),                                      // unknown top-level field
-		[]byte(`{"perm_channels":[{"port_id":"transfer","channel_id":"channel-2","admin":"me"}]}`),                          // unknown nested field
-		[]byte(`{"Perm_Channels":[` + ch("transfer", "channel-2") + `]}`),                                                 // differently-cased key only
+		[]byte(`{"perm_channels":[` + ch("transfer", "channel-0") + `,` + ch("transfer", "channel-0") + `]}`),                   // duplicate in list
+		[]byte(`{"perm_channels":[` + ch("transfer", "channel-2") + `],"extra":1}`),                                             // unknown top-level field
+		[]byte(`{"perm_channels":[{"port_id":"transfer","channel_id":"channel-2","admin":"me"}]}`),                              // unknown nested field
+		[]byte(`{"Perm_Channels":[` + ch("transfer", "channel-2") + `]}`),                                                       // differently-cased key only
 		[]byte(`{"PERM_CHANNELS":[` + ch("transfer", "channel-3") + `],"perm_channels":[` + ch("transfer", "channel-2") + `]}`), // both casings
 		[]byte(`{"perm_channels":[` + ch("transfer", "channel-2") + `],"perm_channels":[` + ch("transfer", "channel-3") + `]}`), // duplicate key, different values
-		[]byte(`{"perm_channels":[{"PORT_ID":"transfer","Channel_Id":"channel-3"}]}`),                                      // cased inner keys
-		[]byte(`{"perm_channels":[{"port_id":"transfer"}]}`),                                                                // missing channel id
-		[]byte(`{"perm_channels":[{"port_id":7,"channel_id":"channel-0"}]}`),                                                // wrong type
+		[]byte(`{"perm_channels":[{"PORT_ID":"transfer","Channel_Id":"channel-3"}]}`),                                           // cased inner keys
+		[]byte(`{"perm_channels":[{"port_id":"transfer"}]}`),                                                                    // missing channel id
+		[]byte(`{"perm_channels":[{"port_id":7,"channel_id":"channel-0"}]}`),                                                    // wrong type
 		[]byte(`[{"port_id":"transfer","channel_id":"channel-0"}]`),
 		[]byte(`perm_channels: transfer/channel-0`),
 		[]byte("{\"perm_channels\":[{\"port_id\":\"trans\xfffer\",\"channel_id\":\"channel-0\"}]}"), // invalid UTF-8
 		[]byte(`{"perm_channels":[` + ch("transfer", "channel-4") + `]} trailing`),
 		[]byte(`{"perm_channels":[` + ch(strings.Repeat("p", 2000), "channel-0") + `]}`),
 		[]byte(`{"perm_channels":[` + ch("transfer", "channel-0") + `],"note":"` + strings.Repeat("x", 5200) + `"}`), // > 5 KiB
-		[]byte(`{"perm_channels":[` + ch("transfer", "channel-9") + `]}`),                                              // missing channel
+		[]byte(`{"perm_channels":[` + ch("transfer", "channel-9") + `]}`),                                            // missing channel
 		[]byte(`{"nested":{"perm_channels":[` + ch("transfer", "channel-0") + `]}}`),
 		[]byte(`null`),
 		[]byte(`42`),
